@@ -7,38 +7,25 @@
 From VRP Require Import Base.Tac Model.Population Proofs.PopulationP.
 From Coq Require Import Sorted.
 
-(* clause 1 (elitist and self-organising population): the first ranked individual is no worse than every individual ever
-   offered, singly or in a batch — for every total preorder, every dedup predicate, every configuration, every history *)
+(* clause 1, all three populations (greedy, elitist, self-organising): the first ranked individual is no worse than what the
+   population was created with (Greedy::new's optional best_known) and every individual ever offered, singly or in a batch —
+   for every total preorder, every dedup predicate, every configuration, every history.
+   History of this theorem: up to /repo commit 646d0ea Greedy::add_all folded with `acc || self.add(individual)` (short-circuit),
+   the faithful model refuted the clause for Greedy (`C08_greedy_best_never_lost_refuted`, witness add_all [5; 3]) and only
+   `_partial` variants (first individual of each batch / batches of at most one) were provable; with the repaired fold
+   (`self.add(individual) || acc`) the model offers every individual of a batch and the full clause is proved. *)
 Theorem C08_best_never_lost :
   forall (ind : Type) (cmp : ind -> ind -> comparison) (dedup : ind -> ind -> bool), total_preorder cmp ->
   forall p0 : pop ind, start_state p0 -> forall (ops : list (op ind)) (p : pop ind),
-  is_greedy p0 = false -> run cmp dedup ops p0 = Some p ->
-  forall x, In x (offered ops) -> exists b, hd_error (ranked p) = Some b /\ cmp b x <> Gt.
+  run cmp dedup ops p0 = Some p ->
+  forall x, In x (ranked p0 ++ offered ops) -> exists b, hd_error (ranked p) = Some b /\ cmp b x <> Gt.
 Proof. exact @best_never_lost. Qed.
 
-(* clause 1 for Greedy is FALSE in general (Greedy::add_all short-circuits: `acc || self.add(..)`), witness: *)
-Theorem C08_greedy_best_never_lost_refuted :
-  exists ops p, run zcmp (zdedup 0 false) ops (greedy_new 1 None) = Some p /\
-    exists x b, In x (offered ops) /\ hd_error (ranked p) = Some b /\ zcmp b x = Gt.
-Proof. exact greedy_add_all_refuted. Qed.
-
-(* clause 1, strongest statement valid for all three populations (Greedy included): no worse than what the population
-   was created with, every individual offered singly (add) and the first individual of every batch.
-   Missing for the full clause on Greedy: the individuals of a batch after the first accepted one. *)
-Theorem C08_best_never_lost_partial :
-  forall (ind : Type) (cmp : ind -> ind -> comparison) (dedup : ind -> ind -> bool), total_preorder cmp ->
-  forall p0 : pop ind, start_state p0 -> forall (ops : list (op ind)) (p : pop ind),
-  run cmp dedup ops p0 = Some p ->
-  forall x, In x (ranked p0 ++ offered_first ops) -> exists b, hd_error (ranked p) = Some b /\ cmp b x <> Gt.
-Proof. exact @best_never_lost_first. Qed.
-
-(* ... hence the full clause 1 also for Greedy when batches have at most one individual *)
-Theorem C08_best_never_lost_small_batches_partial :
-  forall (ind : Type) (cmp : ind -> ind -> comparison) (dedup : ind -> ind -> bool), total_preorder cmp ->
-  forall p0 : pop ind, start_state p0 -> forall (ops : list (op ind)) (p : pop ind),
-  batches_at_most_one ops -> run cmp dedup ops p0 = Some p ->
-  forall x, In x (ranked p0 ++ offered ops) -> exists b, hd_error (ranked p) = Some b /\ cmp b x <> Gt.
-Proof. exact @best_never_lost_small_batches. Qed.
+(* the batch that exposed the former defect: the better second individual of the batch becomes the best *)
+Theorem C08_greedy_add_all_batch_witness :
+  exists p, run zcmp (zdedup 0 false) [OAddAll [ZI 1 5 0 1; ZI 2 3 0 1]] (greedy_new 1 None) = Some p /\
+    map zid (ranked p) = [2].
+Proof. exact greedy_add_all_batch_witness. Qed.
 
 (* clause 2: the ranking is sorted *)
 Theorem C08_ranked_sorted :
